@@ -1,39 +1,127 @@
 """C18 (determinism): a sufficient, purely structural condition for "the result does not depend on Go's randomised map
-iteration order": the function does not iterate over a map at all.  For every function listed in
-PROPS['C18']['ordered_functions'] one obligation  <func>#determinism.no_map_iteration  is generated from the SSA of the
-current tree; it is discharged (trivially, by the solver) exactly when the function contains no `range` over a map.
-Functions that do range over a map are handled by contracts with a demonic iteration order instead (Rename, ALL_AMINO
-expansion, CompareTipIndexes, UpdateTipIndex)."""
+iteration order".
+
+For every function listed in PROPS['C18']['ordered_functions'], and for every function of the packages listed in
+PROPS['C18']['ordered_packages'] (the commands: everything they do ends up in the output), one obligation
+<func>#determinism.no_map_iteration is generated from the SSA of the current tree.  It is discharged (trivially, by the
+solver) exactly when every `range` over a map in the function is an instance of the *collect-then-sort idiom*:
+
+    for k := range m { keys = append(keys, k) }      the body does nothing but append the key to one slice
+    sort.Strings(keys)                                 and the first thing done after the loop is to sort that slice
+
+(the sorted list is a function of the key set, whatever the iteration order was; sort.* is trusted to sort).  Any other
+range over a map fails the obligation.  Functions that range over a map in another way and are nevertheless
+order-independent are handled by contracts with a demonic iteration order instead (Rename, the ALL_AMINO expansion,
+CompareTipIndexes, the acr alphabet, TipBag.Tips) and are not listed here."""
+import re
+from .symex import cfg_of
+
+BODY_OPS = {'Next', 'Extract', 'Phi', 'If', 'Jump', 'DebugRef', 'UnOp', 'Store', 'Call', 'Slice', 'Alloc', 'IndexAddr'}
+SORTS = ('sort.Strings', 'sort.Ints', 'sort.Float64s', 'sort.Slice', 'sort.SliceStable')
+
+
+def is_map(prog, ty):
+    u = prog.types.get(ty) or {}
+    seen = 0
+    while u.get('kind') == 'named' and seen < 5:
+        u = prog.types.get(u.get('under'), {})
+        seen += 1
+    return u.get('kind') == 'map' or ty.startswith('map[')
+
+
+def collect_then_sort(prog, key, fn, rng):
+    """is the map range `rng` (a Range instruction) an instance of the idiom?  returns (ok, reason)"""
+    cfg = cfg_of(prog, key)
+    # the loop whose head calls Next on this iterator
+    loop = None
+    for h, l in cfg['loops'].items():
+        for x in fn['blocks'][h]['instrs']:
+            if x['op'] == 'Next' and x['iter'].get('name') == rng['name']:
+                loop = (h, l)
+    if loop is None:
+        return False, 'no loop found for the iterator'
+    h, l = loop
+    appends = []
+    for b in l['body']:
+        for x in fn['blocks'][b]['instrs']:
+            if x['op'] not in BODY_OPS:
+                return False, 'the body does more than collecting keys (%s at %s)' % (x['op'], x.get('pos', ''))
+            if x['op'] == 'Call':
+                cal = x.get('callee') or {}
+                if cal.get('k') != 'builtin' or cal.get('name') != 'append':
+                    return False, 'the body calls %s' % (x.get('static') or x.get('invoke') or cal.get('name'))
+                appends.append(x)
+            if x['op'] == 'Store':
+                # only into the one-element array built for the variadic append
+                a = x['addr']
+                d = None
+                for b2 in l['body']:
+                    for y in fn['blocks'][b2]['instrs']:
+                        if y.get('name') == a.get('name'):
+                            d = y
+                if d is None or d['op'] != 'IndexAddr':
+                    return False, 'the body stores to memory other than the argument of append'
+    if len(appends) != 1:
+        return False, 'the body does not consist of exactly one append'
+    # the loop is left through its head only, and the first call after it sorts the collected slice
+    exits = [s for s in fn['blocks'][h]['succs'] if s not in l['body']]
+    for b in l['body']:
+        if b != h and any(s not in l['body'] for s in fn['blocks'][b]['succs']):
+            return False, 'the loop is left from inside its body'
+    if len(exits) != 1:
+        return False, 'no single exit'
+    collected = appends[0]['args'][0].get('name')       # the phi carrying the slice
+    for x in fn['blocks'][exits[0]]['instrs']:
+        if x['op'] == 'Call':
+            if x.get('static') in SORTS:
+                a0 = x['args'][0]
+                nm = a0.get('name')
+                if nm == collected:
+                    return True, 'keys collected and sorted (%s) before any use' % x['static']
+                # sort.Slice takes the slice boxed in an interface
+                for y in fn['blocks'][exits[0]]['instrs']:
+                    if y.get('name') == nm and y['op'] == 'MakeInterface' and y['x'].get('name') == collected:
+                        return True, 'keys collected and sorted (%s) before any use' % x['static']
+                return False, 'the slice sorted after the loop is not the one the keys were collected in'
+            return False, 'the first call after the loop is %s, not a sort of the collected keys' % (x.get('static') or x.get('invoke') or 'a dynamic call')
+    return False, 'the collected keys are not sorted right after the loop'
 
 
 def generate(prog, contracts, P, tier, results, funcs_report):
     out = []
+    rev = {}
+    for nm_, fk_ in prog.aliases.items():
+        rev.setdefault(fk_, nm_)
+    targets = []
     for key0 in P.get('ordered_functions', []):
-        key = prog.resolve(key0)
+        targets.append((key0, prog.resolve(key0), True))
+    for pk in P.get('ordered_packages', []):
+        for key in sorted(prog.funcs):
+            if key.startswith(pk + '.') and prog.funcs[key]['blocks'] and not re.match(r'^%s\.init(#\d+)?$' % re.escape(pk), key):
+                shown = rev.get(key, key)
+                if all(t[1] != key for t in targets):
+                    targets.append((shown, key, False))
+    for (key0, key, listed) in targets:
         fn = prog.funcs.get(key)
         if fn is None or not fn['blocks']:
             results.append({'name': key0 + '#generable', 'verdict': 'out_of_subset', 'reason': 'function not found in /repo (renamed or removed)', 'time': 0})
             continue
-        sites = []
+        bad, fine = [], []
         for b in fn['blocks']:
             for i in b['instrs']:
-                if i['op'] == 'Range':
-                    ty = i['x'].get('type', '')
-                    e = prog.types.get(ty) or {}
-                    u = e
-                    seen = 0
-                    while u.get('kind') == 'named' and seen < 5:
-                        u = prog.types.get(u.get('under'), {})
-                        seen += 1
-                    if u.get('kind') == 'map' or ty.startswith('map['):
-                        sites.append(i.get('pos', ''))
-        funcs_report.append({'function': key0, 'file': fn.get('pos', ''), 'status': 'scanned for map iteration', 'obligations': 1})
+                if i['op'] == 'Range' and is_map(prog, i['x'].get('type', '')):
+                    ok, why = collect_then_sort(prog, key, fn, i)
+                    (fine if ok else bad).append('%s (%s)' % (i.get('pos', ''), why))
+        if listed or bad or fine:
+            funcs_report.append({'function': key0, 'file': fn.get('pos', ''), 'status': 'scanned for map iteration', 'obligations': 1})
+        elif not listed:
+            continue          # a command function without any map range: nothing to state
         name = '%s#determinism.no_map_iteration' % key0
-        if sites:
+        if bad:
             smt = '(assert true)\n(check-sat)\n'
-            text = 'iterates over a map at %s: the order of the results may depend on the randomised iteration order' % ', '.join(sites)
+            text = 'iterates over a map at %s: the order of the results may depend on the randomised iteration order' % '; '.join(bad)
         else:
             smt = '(assert false)\n(check-sat)\n'
-            text = 'no range over a map in the body'
+            text = 'no range over a map in the body' if not fine else 'every range over a map only collects keys that are sorted before use: ' + '; '.join(fine)
         out.append((name, smt, text, None))
     return out
